@@ -731,6 +731,9 @@ class Builder:
                     if self.d(st.booleans()):
                         svc["scopes"] = ["https://www.googleapis.com/auth/cloud-platform"] + (["https://www.googleapis.com/auth/other"] if self.d(st.booleans()) else [])
                     mnames = Names()
+                    if self.p.get("dup_rpc_names") and self.d(st.booleans()):
+                        mnames = self._shared_mnames = getattr(self, "_shared_mnames", None) or Names()
+                        mnames = Names() if self.d(st.booleans()) else mnames
                     for _ in range(self.d(st.integers(1, self.p["max_methods"]))):
                         svc["methods"].append(self.method(file, pkg, names, fi, mnames, host))
                     c = self.comment()
